@@ -38,7 +38,7 @@ CHECKS = [
   "Generated histories with one-shot failpoints armed at generated steps; an error without a fired failpoint is a violation, a write that reported Err is rolled back in the model and must never be served, every record acknowledged earlier must keep answering exactly after every step, service must resume after the fault clears (writes, delete, worker alive, idle reached), and after restart every blob is served or preserved byte-identical in the corrupted dir. Enumerated phase: one fixed history with the n-th operation of each kind failing for every n, on fresh and reopened active blobs.",
   "Faults are injected at pearl's own call sites (hook H2), not in the kernel. A key hit by a faulted delete is excluded from comparison (a delete may legitimately be applied to some blobs only). Open known finding: a failed write whose bytes reached the file can be resurrected by a later index regeneration."),
  ("C12", "exploration", "trace property: four ordering rules evaluated on the generated write/sync event trace (I/O tap)",
-  "Generated histories with dirty-byte limits {0,1,100,4096,1MiB,default}, value sizes around the write-path thresholds and concurrent write bursts run under the I/O tap with payload capture; the ordered trace must satisfy: blob header synced before the first record, index marked complete only after the blob bytes it describes were synced, explicit fsyncdata / close of the active blob / close leave no un-synced byte of that blob, and at every idle point the active blob's un-synced bytes are within the limit.",
+  "Generated histories with dirty-byte limits {0,1,100,4096,1MiB,default}, value sizes around the write-path thresholds and concurrent write bursts run under the I/O tap with payload capture; the ordered trace must satisfy: blob header synced before the first record, index marked complete only after the blob bytes it describes were synced, explicit fsyncdata / close of the active blob / close leave no un-synced byte of that blob, and at every idle point the active blob's un-synced bytes are within the limit. A second generated phase injects one failing sync of a blob file (failpoint, EIO/ENOSPC) into write/burst/fsyncdata histories and judges the idle rule at every idle point that follows an acknowledged write made after the failure.",
   "A write counts as covered by a sync only if its end event precedes the sync's begin event. 'Eventually' is judged at quiescence (H3 probe)."),
  ("C13", "exploration", "property testing of liveness at quiescence: arbitrary call sequences followed by an overflow probe judged through the background-worker probe",
   "Generated sequences over all public calls (all *_in_background variants in every active-blob state, force_update predicates, data ops, restarts) with tiny blob limits; then the active blob is aged past the 200 ms debounce and over-filled; at idle (nothing queued, nothing running) the worker must be alive, a switch must have happened, every non-empty closed blob must have a complete current index file, and close() must return.",
@@ -47,7 +47,7 @@ CHECKS = [
   "Generated prefix, one victim call of every kind (writes across the size thresholds, deletes over several blobs, close/create/restore of the active blob, fsyncdata) dropped after k resumptions on both runtime flavours, generated suffix and restarts. All data answers must match a world in which the victim is applied entirely or not at all (a record that reached the file but not the index may take effect from a restart on); later operations must succeed; after the final restart nothing is quarantined and every blob file parses and validates. Enumerated phase: every victim kind x every k x both runtimes x fresh/reopened active blob.",
   "Suspension points are those the runtime produces. Open known findings: a dropped blob creation leaves an empty blob file that the next start quarantines; a dropped delete may have marked only some of the blobs."),
  ("C15", "exploration", "model-based property testing of accounting values",
-  "records_count*, blobs_count, next_blob_id, corrupted_blobs_count compared with the model after every step of generated histories (restore, delete into closed blobs, forced switches, restarts); disk_used compared with the directory listing at every idle point.",
+  "records_count*, blobs_count, next_blob_id, corrupted_blobs_count compared with the model after every step of generated histories (restore, delete into closed blobs, forced switches, clean restarts, restarts without close with blob damage that quarantines a blob); disk_used compared with the directory listing at every idle point.",
   "The id printed for the active entry of records_count_detailed is not asserted (only its count). disk_used is compared only at idle points (no dump in flight)."),
  ("C16", "fault_enumeration", "property testing of the offline tools on storage-produced blobs under generated truncation / byte-flip damage per position class",
   "Blobs produced by generated single-blob histories; undamaged files must pass validate_blob/validate_index, read_index must report exactly the parser's headers, migrate_blob must preserve every record. One generated damage (truncation inside a record per class, or a flipped byte in one of 15 position classes): validate_blob must reject, recovery_blob (skip off/on) must produce a valid blob with every intact record before the damage (and after it when skipping applies), correct blob_offsets, nothing invented, and a Storage opened on the output must serve every contained record with its original bytes.",
